@@ -141,3 +141,67 @@ func replayNesting(c Case) {
 	}
 	rep.Finish()
 }
+
+// Family (j): 32-bit overflow probes. A declared element count of 2^28 or more is legal on the wire and makes
+// "count x element size" wrap in 32-bit arithmetic (a byte count computed as VarInt*8). Every other family stops at
+// declared lengths of 2^20 (the over-allocation guard), so these few inputs are run here, one at a time: an honest
+// decoder allocates what the input declares (at most 2 GiB of untouched memory), fails to read it and returns an
+// error. Only the prefix is sent, no body.
+var overflowProbes = []struct {
+	Dec  string
+	Lens []int64
+}{
+	{"BitSet", []int64{1 << 28, 1<<28 + 3}},
+	{"BitSet/reused", []int64{1 << 28, 1<<28 + 3}},
+	{"BitStorage", []int64{1 << 28, 1<<28 + 3}},
+	{"BitStorage/reused", []int64{1 << 28}},
+	{"ByteArray", []int64{1 << 30, 1<<31 - 1}},
+	{"String", []int64{1 << 30, 1<<31 - 1}},
+	{"chat.JsonMessage.ReadFrom", []int64{1<<31 - 1}},
+	{"Ary[VarInt][]VarInt", []int64{1 << 29, 1<<29 + 1}},
+	{"UnPack/T=-1", []int64{1 << 30, 1<<31 - 1}},
+	{"UnPack/T=0", []int64{1 << 30, 1<<31 - 1}},
+}
+
+var overflowCases int64
+
+func runOverflowProbe(slot int, d *Decoder, n int64) {
+	deepGate.Lock()
+	defer deepGate.Unlock()
+	data := append(vi(int32(n)), 0x01, 0x02, 0x03)
+	mk := func() Case {
+		return Case{Kind: "overflow", Decoder: d.Name, Hex: fmt.Sprintf("%x", data), Origin: fmt.Sprintf("famJ:declared-count:%d", n), SiteOff: 0}
+	}
+	var err error
+	wd.Begin(slot, func() string { return caseJSON(mk()) })
+	kind, frame, panicked := engine.Guard(func() { err = d.Run(bytes.NewReader(data)) })
+	wd.End(slot)
+	rep.Eval(1)
+	atomic.AddInt64(&overflowCases, 1)
+	if panicked {
+		rep.FailLazy(d.Name+"/panic/"+frame+"/"+kind+"/declared-count-2^28-or-more", int(n>>20), func() engine.Failure {
+			return engine.Failure{Detail: fmt.Sprintf("panic %q in %s while %s decodes a declared count of %d followed by 3 bytes", kind, frame, d.Name, n), Case: mk()}
+		})
+		return
+	}
+	if err == nil {
+		rep.FailLazy(d.Name+"/accepted/declared-count-beyond-the-input", int(n>>20), func() engine.Failure {
+			return engine.Failure{Detail: fmt.Sprintf("%s returned a nil error for a declared count of %d followed by 3 bytes", d.Name, n), Case: mk()}
+		})
+	}
+}
+
+func famOverflow() []func(slot int) {
+	var jobs []func(slot int)
+	for _, p := range overflowProbes {
+		d := findDecoder(p.Dec)
+		if d == nil {
+			engine.HarnessError("overflow probes: unknown decoder %s", p.Dec)
+		}
+		for _, n := range p.Lens {
+			d, n := d, n
+			jobs = append(jobs, func(slot int) { runOverflowProbe(slot, d, n) })
+		}
+	}
+	return jobs
+}
